@@ -170,6 +170,27 @@ def main(rep):
             validated += v2
             for c in wcases:
                 nontrivial.add(c[1])
+        # a version pattern without a slash whose EXPANSION has slashes (%D = mm/dd/yy): implementation only (the model
+        # knows %s and %%); whatever the daemon does about it, no version may land outside
+        # <store root>/<relative path>/<version><extension>
+        dcases = []
+        for i in range(4 if rep.tier == "quick" else 20):
+            s = wc.Script()
+            wc.setup_world(s, wc.base_cfg(deb=0, vpat=rng.choice(["%D", "v%D", "%x"])))
+            s.start()
+            s.exec(3, wc.X + "/vim")
+            fpath = rng.choice([wc.WATCH + "/inc/a.txt", wc.WATCH + "/n"])
+            s.put(fpath, "dated %d" % i)
+            s.dump()
+            s.write(3, fpath)
+            s.dump()
+            s.timeout()
+            s.dump()
+            dcases.append(("v%d" % i, s.text(), {}))
+        if not found:
+            f4, v4 = wk.run_cases(rep, exe_impl, None, dcases, ["layout", "fault_reported"], what="layout")
+            found = found or f4
+            validated += v4
         # "never modifies or removes a watched file" also when a call fails: every call of the passes over a file, a
         # history file, a project and a taken name fails in turn; the call log and the watched tree are judged
         fcases = wk.enumerate_cases(exe_impl, rep.tier, "fault", rep.seed,
@@ -212,7 +233,7 @@ def main(rep):
                                           "what": "implementation and model differ on main() with roots %s" % wroots})
                     continue
                 validated += 1
-        rep.cov["evaluations"] = len(pc) + len(wcases) + len(mcases) + len(fcases)
+        rep.cov["evaluations"] = len(pc) + len(wcases) + len(mcases) + len(fcases) + len(dcases)
         rep.cov["distinct_nontrivial"] = len(nontrivial)
         rep.cov["traces_validated_against_impl"] = validated
         rep.cov["input_distribution"] = {"names_exhaustive_and_random": sum(1 for c in pc if c[2][0] == "ext"),
